@@ -87,6 +87,55 @@ func vBracketed(log []vCallback) bool {
 	return true
 }
 
+// H_C11_reopen: a second notification (new membership value) arrives while the
+// reopen triggered by the first one is in progress, after the reopen has read
+// the membership. It starts a new burst: the stream must converge to the
+// latest membership by a second close/reopen cycle.
+func H_C11_reopen() {
+	setMerge(true)
+	vC11Preempt()
+	c := vC11Setup(false)
+	fx := c.fx
+	fx.s.Open()
+	setHorizon(int64(5 * time.Minute))
+	reopening := false
+	fx.cl.openErr = func(vbID uint16, nth int) error {
+		if reopening {
+			time.Sleep(3 * time.Second) // the reopen takes a while
+		}
+		return nil
+	}
+	fx.h.onEvent = func(name string) {
+		if name == "BRE" {
+			c.opensAtBRE = len(fx.cl.openCalls)
+			reopening = true
+			thawSchedule() // every order of the reopen against the late notification
+		}
+		if name == "ARE" {
+			reopening = false
+			freezeSchedule() // the follow-up cycle is an ordinary one (C11_bus explores those)
+		}
+	}
+	freezeSchedule() // the first close is an ordinary one
+	spawnEnv(func() {
+		c.busLock.Lock()
+		c.member = 2
+		fx.s.Rebalance()
+		c.busLock.Unlock()
+	})
+	spawnEnv(func() {
+		time.Sleep(vDelay + time.Second) // the first reopen is in progress, its membership read is done
+		c.busLock.Lock()
+		c.member = 1
+		c.lastNote = nowNs()
+		fx.s.Rebalance()
+		c.busLock.Unlock()
+	})
+	quiesce()
+	cover("during-reopen")
+	c.check(vDelay, 2)
+}
+
 // vC11Check: the outcome of one burst of notifications whose latest value is `member`.
 func (c *vC11) check(delay time.Duration, cycles int) {
 	fx := c.fx
